@@ -23,7 +23,7 @@ META = dict(
     engines=["bfs"],
     technique="explicit-state BFS over edit histories of the real Grid object with invariants in every reachable state",
     text="For each of 320 initial grids (definedness x locks x endpoint x dimension) a breadth-first search applies every "
-         "sequence of up to 3 (quick) / 4 (thorough) edits from a 17-operation alphabet through the real setters, match() and "
+         "sequence of up to 3 (quick) / 5 (thorough) edits from a 17-operation alphabet through the real setters, match() and "
          "round_to_power(); states are deduplicated on the complete attribute tuple and the consistency / lock invariants are "
          "evaluated after every transition, including transitions that raise.",
     note="Bound: history length, value alphabet (3 extents, 3 gpts incl. 1, 3 samplings incl. incommensurate ones, None, tuples). "
@@ -213,7 +213,7 @@ def replay_history(case):
 
 
 def check(ctx):
-    depth = 3 if ctx.quick else 4
+    depth = 3 if ctx.quick else 5
     cases = [{"init": c, "depth": depth} for c in initial_configs()]
     res = ctx.run(cases, "explore", batch=4, rule="one BFS per initial grid (8 definedness patterns x 8 lock combinations x endpoint "
                   "x dimension = %d), histories of <= %d operations from a %d/%d-operation alphabet, deduplicated on the complete "
